@@ -145,6 +145,10 @@ func ruleTX1(c *Ctx) []Ob {
 			o.add(OK, key, pos, "Begin error tested; `defer Rollback` dominates every use and every exit")
 		}
 	}
+	// operations written as bodies of a tx-scope helper never hold the transaction themselves
+	for _, tb := range c.txBodies() {
+		o.add(OK, c.fname(tb.Fn)+"/runs inside "+c.fname(tb.Helper), relPath(c, tb.Site.Pos()), "the transaction is opened and released by %s, which holds the TX1 obligation", c.fname(tb.Helper))
+	}
 	return o.list
 }
 
@@ -326,6 +330,19 @@ func ruleTX2(c *Ctx) []Ob {
 			if c.provablyNonNil(fn, rv, b) {
 				o.add(OK, k, pos, "after a write, returns an error that is non-nil on this path (rollback by the deferred call)")
 				continue
+			}
+			// `if err := tx.Commit(); err != nil { return wrap(err) }; return nil`
+			if isNilConst(rv) {
+				var committed []edge
+				for _, r := range realReferrers(op.Tx) {
+					if cc, ok := r.(*ssa.Call); ok && c.isCommit(cc) && txReceiver(cc) == op.Tx {
+						committed = append(committed, nilEdges(fn, sameValue(cc))...)
+					}
+				}
+				if guardedBy(fn, b, committed) {
+					o.add(OK, k, pos, "returns nil only after Commit on this transaction was found to have succeeded")
+					continue
+				}
 			}
 			o.add(VIOLATED, k, pos, "a store write may precede this return, which neither returns tx.Commit() nor a provably non-nil error: success is acknowledged with nothing committed")
 		}
@@ -701,11 +718,17 @@ func ruleTX4(c *Ctx) []Ob {
 			nBegin++
 			key := "DB." + name + "/" + c.fname(e.fn) + "/Begin"
 			pos := relPath(c, e.call.Pos())
+			writes := Eff(0)
+			for f := range c.reachFuncs(fn) {
+				writes |= c.localEff(f) & EffWrites
+			}
 			switch {
 			case e.kind == "r":
 				o.add(OK, key, pos, "read-only transaction")
 			case commitAt == "":
 				o.add(OK, key, pos, "opened for update, but no Commit is reachable from DB.%s: every change is rolled back", name)
+			case writes == 0:
+				o.add(OK, key, pos, "opened for update and possibly committed, but nothing reachable from DB.%s writes to the store: the commit is empty", name)
 			default:
 				o.add(VIOLATED, key, pos, "read operation DB.%s opens an update transaction and %s commits", name, commitAt)
 			}
